@@ -205,6 +205,8 @@ class Ctx:
             if rc == 0:
                 self.discharged += names
                 self.log(f"coqc props/{pf}: {len(names)} theorems checked in {dt:.1f}s")
+                if self.tier == "thorough":
+                    self.coqchk(pf, extra)
             else:
                 m = re.search(r'line (\d+), characters', err + out)
                 fail_ln = int(m.group(1)) if m else 0
@@ -220,6 +222,36 @@ class Ctx:
                     detail = "coqc timed out\n" + detail
                 self.broken.append({"what": f"theorem {failing or '?'} in {pf} no longer checks", "detail": detail})
                 self.log(f"coqc props/{pf} FAILED at line {fail_ln} (theorem {failing}):\n{detail}")
+
+    def coqchk(self, pf: str, extra: list[str]):
+        """thorough tier: re-check the compiled property file and everything it depends on with the independent checker
+        and record the axioms it lists (they include axioms of every loaded library module, used or not)"""
+        mod = "QPP." + os.path.splitext(pf)[0]
+        self.obligations.append(f"coqchk:{pf}")
+        t0 = time.time()
+        try:
+            r = subprocess.run(["timeout", "1800", "coqchk", "-silent", "-o"] + COQ_ARGS + extra + [mod], cwd=self.work,
+                               capture_output=True, text=True)
+        except Exception as e:  # noqa: BLE001
+            self.broken.append({"what": f"coqchk {pf} could not run", "detail": str(e)})
+            return
+        out = r.stdout + r.stderr
+        if r.returncode != 0 or "CONTEXT SUMMARY" not in out:
+            self.broken.append({"what": f"coqchk rejects {pf}", "detail": out[-1500:]})
+            return
+        ax = []
+        block = out.split("* Axioms:")[1].split("* Constants")[0] if "* Axioms:" in out else ""
+        for line in block.split("\n"):
+            line = line.strip()
+            if line and line != "<none>":
+                ax.append(line)
+        for bad in ("type-in-type", "unsafe (co)fixpoints", "positivity is assumed"):
+            seg = out.split(bad)[1].split("\n")[0] if bad in out else ": <none>"
+            if "<none>" not in seg:
+                self.broken.append({"what": f"coqchk {pf}: {bad}", "detail": seg})
+        self.discharged.append(f"coqchk:{pf}")
+        self.trusted.append(f"coqchk -o {mod} ({time.time() - t0:.0f}s): axioms of all loaded modules = " + (", ".join(ax) or "none"))
+        self.log(f"coqchk {pf}: ok, {len(ax)} axioms in the loaded context")
 
     # -- harness subprocesses ---------------------------------------------------------
     def harness(self, script: str, args: list[str] | None = None, timeout: int = 3000, kind: str = "sweep"):
